@@ -16,6 +16,7 @@ from fvmon import gen
 from fvmon.observe import content, unbox, spec_of
 
 SPEC = {
+    "anchors": ["fibertree.core.fiber:Fiber.splitUniform", "fibertree.core.fiber:Fiber.splitNonUniform", "fibertree.core.fiber:Fiber._splitNonUniform_iter", "fibertree.core.fiber:Fiber.splitEqual", "fibertree.core.fiber:Fiber.splitUnEqual", "fibertree.core.fiber:Fiber._splitGeneric", "fibertree.core.fiber:Fiber._splitFiber", "fibertree.core.fiber:Fiber.__truediv__", "fibertree.core.fiber:Fiber.__floordiv__", "fibertree.core.tensor:Tensor._splitGeneric"],
     "rule": ("case = one tree (depth 1-3; 3-state occupancy vector over 5 (quick) / 7 (thorough) coordinates or random; "
              "explicit default payloads, empty sub-fibers; leaf default 0 or 7; declared shapes; explicit active ranges "
              "not aligned to any step, set on the fibers of the split rank) x one entry point (free Fiber method, "
